@@ -170,7 +170,10 @@ def compare(actual, ref, pc, env=None, where='$'):
             return ['%s: expected primitive %s [%s %d], found %s' % (where, ref[1], ref[2], ref[3], fmt_shape(actual))]
         out = []
         if (actual[1], actual[2], actual[3]) != (ref[1], ref[2], ref[3]):
-            out.append('%s: expected %s [%s %d], found %s [%s %d]' % (where, ref[1], ref[2], ref[3], actual[1], actual[2], actual[3]))
+            if (actual[1], actual[2]) == (ref[1], ref[2]):
+                out.append('%s is written with tag [%s %d], the reference says [%s %d]' % (where, actual[2], actual[3], ref[2], ref[3]))
+            else:
+                out.append('%s: expected %s [%s %d], found %s [%s %d]' % (where, ref[1], ref[2], ref[3], actual[1], actual[2], actual[3]))
         if ref[4] is not None and not ref[4](actual[4], env):
             out.append('%s: content comes from `%s`, which is not the expected source' % (where, absx.fmt(actual[4])[:60]))
         return out
@@ -188,6 +191,8 @@ def compare_items(acts, refs, pc, env, where):
     out = []
     for ri, r in enumerate(refs):
         w = '%s.%d' % (where, ri)
+        if r[0] == 'OPT' and r[3]:
+            w = '%s.%d (%s)' % (where, ri, r[3])         # a named component is reported by its name
         if r[0] == 'OPT':
             present = r[1](pc)
             if present is False:
